@@ -142,7 +142,8 @@ class Proc(object):
                  'stdout_w', 'stderr_w', 'popen', 'pending', 'death_time',
                  'death_cause', 'death_seq', 'reaped_by', 'dying', 'fdtable',
                  'orig_parent', 'term_first', 'written', 'wid',
-                 'late_forked', 'forked_by', 'spawn_step', 'leader_gone')
+                 'late_forked', 'forked_by', 'spawn_step', 'leader_gone',
+                 'death_step')
 
     def __init__(self, pid, ppid, argv, kw, beh):
         self.pid = pid
@@ -163,6 +164,7 @@ class Proc(object):
         self.popen = None
         self.pending = []
         self.death_time = None
+        self.death_step = None
         self.death_cause = None
         self.death_seq = None
         self.reaped_by = None
@@ -270,6 +272,7 @@ class SimKernel(object):
             return False
         p.wstatus = wstatus
         p.death_time = self.sim.now
+        p.death_step = self.sim.steps
         p.death_cause = cause
         p.death_seq = self.sim.rec('death', pid, wstatus, cause)
         parent = self.procs.get(p.ppid)
